@@ -1051,7 +1051,11 @@ class Interp(object):
                 raise Undecided('space.element(%r)' % (inp,))
             return Builtin('element', element)
         if name == 'zero':
-            return Builtin('zero', lambda: Vec({}, s))
+            def zero(sp=s):
+                if getattr(sp, 'parts', None) is not None:
+                    return PVec([zero(p) for p in sp.parts], sp)
+                return Vec({}, sp)
+            return Builtin('zero', zero)
         if name == 'one':
             return Builtin('one', lambda: Vec(vs.sym('ONE'), s))
         if name == 'lincomb':
